@@ -255,7 +255,9 @@ def body_assign(ctx, case):
                 # invalid (self-touching) region: 'inside' is judged against the polygon itself (even-odd), 'outside'
                 # against its convex hull (the documented repair); anything in between is not ranked
                 cls_poly = classify_pair(d["baseline"], rs["poly"])
-                cls = "inside" if cls_poly == "inside" else ("outside" if cls == "outside" else "unranked")
+                # a line that neither touches the ring nor lies inside it (even-odd) does not touch the region at all,
+                # even if it lies in a notch of the convex hull
+                cls = "inside" if cls_poly == "inside" else ("outside" if (cls == "outside" or cls_poly == "outside") else "unranked")
             ctx.event("pair:" + cls)
             if cls == "inside" and L > 2.5:
                 n_inside += 1
@@ -295,7 +297,8 @@ def strat_extractor():
             else:
                 per_rot[rot] = [i for i in range(len(base["lines"])) if draw(st.booleans())]
         return dict(base=base, per_rot=per_rot, detect_regions=draw(st.booleans()), detect_lines=draw(st.booleans()),
-                    merge_lines=draw(st.booleans()), multi=draw(st.booleans()), simple=draw(st.integers(0, 4)) == 0)
+                    merge_lines=draw(st.booleans()), multi=draw(st.booleans()), simple=draw(st.integers(0, 4)) == 0,
+                    lib_ids=draw(st.booleans()))
     return case()
 
 
@@ -336,7 +339,10 @@ def body_extractor(ctx, case):
     pl = PageLayout(id="p", page_size=(4000, 4000))
     desc = lambda: "case=%r" % (case,)
     img = np.zeros((8, 8, 3), dtype=np.uint8)
-    given = [RegionLayout("g%d" % i, np.asarray(r["poly"], dtype=np.float64)) for i, r in enumerate(base["regions"])]
+    # given regions carry ids of the library's own scheme (r000, r000_1, r001_3: what an earlier detection pass writes)
+    scheme = ["r000", "r000_1", "r001_3", "r001"]
+    given = [RegionLayout(scheme[i] if case.get("lib_ids") else "g%d" % i, np.asarray(r["poly"], dtype=np.float64))
+             for i, r in enumerate(base["regions"])]
     if case["simple"]:
         ex = object.__new__(PP.TextlineExtractorSimple)
         ex.engine = StubDetector(case, H)
@@ -382,5 +388,5 @@ def body_extractor(ctx, case):
 
 UNITS = [
     Unit("assign", "given", body=body_assign, strategy=strat_assign, quick=2400, thorough=24000, shards_quick=8),
-    Unit("extractor", "given", body=body_extractor, strategy=strat_extractor, quick=300, thorough=5000),
+    Unit("extractor", "given", body=body_extractor, strategy=strat_extractor, quick=1200, thorough=8000, shards_quick=8),
 ]
